@@ -42,6 +42,9 @@ def jobs(tier):
     kinds = sorted(KINDS)
     if tier == "quick":
         pipes = [["G"], ["G", "P"], ["P", "G"], ["E", "G"], ["G", "E"], ["C", "G"], ["G", "C"], ["P", "E"]]
+        for p in (["G", "P"], ["G", "G"]):
+            # two workers and the second read arriving at a scheduler-chosen time (single cut at the message boundary, full sends)
+            js.append(dict(name="%s:la1:w2:timed" % "".join(p), pipe=p, lookahead=1, workers=2, P=1, gran="sync", rich=False, timed2=True))
         for p in pipes:
             for la, w in ((0, 1), (1, 1), (2, 2)):
                 if w == 2 and p not in (["G", "P"], ["E", "G"], ["G", "C"]):
@@ -74,6 +77,9 @@ def make_inputs(job):
     else:
         spots = sorted(set([0, len(reqs[0]), len(data) - 2]) - {len(data)})
         b0, b1 = (None, 0, -1, "stall4-partial"), (None, 0)
+    if job.get("timed2"):
+        return dict(pipe=job["pipe"], lookahead=job["lookahead"], workers=job["workers"], P=job["P"], cut=len(reqs[0]), budgets=[None, None],
+                    gran=job["gran"], timed2=True)
     cut = spots[eng.choose(len(spots), "cut")]
     budgets = [b0[eng.choose(len(b0), "acc0")], b1[eng.choose(len(b1), "acc1")]]
     return dict(pipe=job["pipe"], lookahead=job["lookahead"], workers=job["workers"], P=job["P"], cut=cut, budgets=budgets, gran=job["gran"])
@@ -136,12 +142,13 @@ class Budget:
 
 def scenario(ns, inp):
     calls = []
+    env.reset_loggers()
     sysm = hsys.System(ns, make_app(calls), adj_kw=dict(threads=inp["workers"], channel_request_lookahead=inp["lookahead"]), P=inp["P"],
                        yield_funcs=None if inp.get("gran", "line") == "line" else set())
     try:
         data = b"".join(KINDS[k] % (i + 1) for i, k in enumerate(inp["pipe"]))
         pieces = [data] if not inp["cut"] else [data[:inp["cut"]], data[inp["cut"]:]]
-        timed = len(pieces) > 1 and inp["lookahead"] >= 1 and inp["workers"] == 1 and inp["cut"] in (len(KINDS[inp["pipe"][0]] % 1), len(data) - 2)
+        timed = inp.get("timed2") or len(pieces) > 1 and inp["lookahead"] >= 1 and inp["workers"] == 1 and inp["cut"] in (len(KINDS[inp["pipe"][0]] % 1), len(data) - 2)
         conn = sysm.connect(pieces[:1] if timed else pieces)
         if timed:
             # the second read's bytes arrive whenever the scheduler lets the client run
@@ -165,7 +172,8 @@ def scenario(ns, inp):
         conn.send = send
         sysm.run()
         ch = sysm.channels()
-        obs = dict(wire=bytes(conn.wire()), calls=list(calls), exc=list(sysm.s.thread_exceptions), live=sorted(sysm.s.live()),
+        swallowed = [m for lvl, m in env.log_records("waitress") if lvl == "exception"]
+        obs = dict(wire=bytes(conn.wire()), calls=list(calls), exc=list(sysm.s.thread_exceptions) + swallowed, live=sorted(sysm.s.live()),
                    closed=conn.closed, senders=sorted(set(w for _, w in conn.sent)), preempt=sysm.s.preempt,
                    pending_out=[c.total_outbufs_len for c in ch], queued=[len(c.requests) for c in ch])
     finally:
@@ -177,7 +185,7 @@ def scenario(ns, inp):
 
 
 def oracle(inp, obs):
-    out = [("no thread dies with an exception (%r)" % (obs["exc"],), not obs["exc"]),
+    out = [("no thread dies with an exception and none is swallowed by the worker loop or the event handlers (%r)" % (obs["exc"],), not obs["exc"]),
            ("the I/O loop and the workers are alive at quiescence", "io" in obs["live"] and any(n.startswith("waitress-") for n in obs["live"]))]
     finals, interims, rest = split(obs["wire"])
     out.append(("requests are executed one at a time, in arrival order, each exactly once (calls %r, expected %r)" % (obs["calls"], obs["refcalls"]),
